@@ -37,7 +37,8 @@ BOUND = {
     "one seed-chosen} x {default, --nodebump --noopt}; "
     "rigid placements: 5 distances x 24 axis orientations x 8 shifts of "
     "0.25 A along the S-S axis; two pairs in one structure (4 x 4 distance "
-    "combinations x 3 positions)",
+    "combinations x 3 positions); a clean pair next to an ambiguous "
+    "three-sulfur cluster (4 file orders x 2 HG patterns x 3 positions)",
     "thorough": "all six force fields",
 }
 DISTANCES = [1.9, 2.04, 2.3, 2.49, 2.499, 2.501, 2.51, 2.6, 3.0, 5.0]
